@@ -1170,6 +1170,10 @@ def check_paths(ctx):
                      ".." + bs + "escaped" + bs + "shards_list.json"]
         hostile_lists = ["../outside/shards_list.json",
                          str(outside / "shards_list.json"),
+                         # POSIX keeps exactly two leading slashes as an
+                         # anchor of its own
+                         "/" + str(outside / "shards_list.json"),
+                         "//./" + str(outside / "shards_list.json").lstrip("/"),
                          "../dataset_v2/shards_list.json",
                          "train/../../outside/shards_list.json"]
         # (1) validators
